@@ -171,16 +171,17 @@ def encCoarseBands (cfg : EncCfg) (prob : List Nat) (budget : Int) : Nat → Nat
       | r => r
     | r => r
 
+/-- The intra flag (quant_bands.c:166-167; `two_pass = intra = 0` when it does not fit, line 278-279). -/
+def encIntra (totE : Int) (s : St) : Nat × St :=
+  if tell s.e + 3 ≤ totE then
+    ((if s.pop.1 ≠ 0 then 1 else 0 : Nat), s.pop.2.emit (.bitLogp (if s.pop.1 ≠ 0 then 1 else 0) 3))
+  else (0, s)
+
 /-- `quant_coarse_energy` as far as the bit-stream is concerned: the intra flag (if it fits) and the chosen pass. -/
 def encCoarse (cfg : EncCfg) (totalBits : Int) (s : St) : Res (Nat × List Int × List Int × St) :=
-  let (intra, s1) : Nat × St :=
-    if tell s.e + 3 ≤ totalBits then
-      let (v, s1) := s.pop
-      let b : Nat := if v ≠ 0 then 1 else 0
-      (b, s1.emit (.bitLogp b 3))
-    else (0, s)
-  match encCoarseBands cfg ((eProbModel.getD cfg.LM []).getD intra []) totalBits (cfg.end_ - cfg.start) cfg.start s1 with
-  | .ok (qs, qds, s2) => .ok (intra, qs, qds, s2)
+  match encCoarseBands cfg ((eProbModel.getD cfg.LM []).getD (encIntra totalBits s).1 []) totalBits (cfg.end_ - cfg.start)
+      cfg.start (encIntra totalBits s).2 with
+  | .ok (qs, qds, s2) => .ok ((encIntra totalBits s).1, qs, qds, s2)
   | .err e => .err e
   | .oob => .oob
   | .abort => .abort
